@@ -3,5 +3,5 @@ SPECIFICATION Spec
 CONSTANTS
   Fams <- Legacy
   Alpha <- AlphaLegacyBig
-  Shapes <- ShapeCrossM
+  Shapes <- ShapeCrossL
 INVARIANTS TypeOK RefinesRules RefinesIter RefinesRest Export
